@@ -119,6 +119,10 @@ theorem C14_only_with (e : Env) (st : OState)
       rw [hlc] at hvs
       cases hn : e.req.note with
       | malformed l => rw [hn] at hvs; cases hvs
+      | truncated nt =>
+        rw [hn] at hvs
+        simp only [] at hvs
+        split at hvs <;> cases hvs
       | wellformed note =>
         rw [hn] at hvs
         simp only [] at hvs
@@ -353,4 +357,97 @@ theorem C14_fork_refused (inj : Merkle.NodeInj node) (e : Env) (st : OState) (v 
   obtain ⟨a, b, c⟩ := (C14_status_recorded node emptyHash e st v k hpre hv hk).2.1 hold h0 hct
   exact ⟨a, c, b⟩
 
+/-! ### non-vacuity -/
+namespace Example
+
+/-- an injective interior hash on byte strings: the length of the left child in unary, then both children -/
+def pairNode (a b : Hash) : Hash := List.replicate a.length 1 ++ 0 :: (a ++ b)
+
+theorem replicate_sep {m n : Nat} {x y : Bytes}
+    (h : List.replicate m (1 : UInt8) ++ 0 :: x = List.replicate n 1 ++ 0 :: y) : m = n ∧ x = y := by
+  induction m generalizing n with
+  | zero =>
+    cases n with
+    | zero => simpa using h
+    | succ n => simp [List.replicate_succ] at h
+  | succ m ih =>
+    cases n with
+    | zero => simp [List.replicate_succ] at h
+    | succ n =>
+      simp only [List.replicate_succ, List.cons_append, List.cons.injEq, true_and] at h
+      obtain ⟨h1, h2⟩ := ih h
+      exact ⟨by omega, h2⟩
+
+/-- the collision-freeness hypothesis of the chain theorem is satisfiable -/
+theorem pairNode_inj : Merkle.NodeInj pairNode := by
+  intro a b c d h
+  obtain ⟨hl, hx⟩ := replicate_sep h
+  exact List.append_inj hx hl
+
+/-- a 32-byte "hash" for executable examples (not injective; the examples only run the machine) -/
+def nodeE (a b : Hash) : Hash := a.take 16 ++ b.take 16
+def emptyE : Hash := List.replicate 32 0
+
+def k1 : VKey := ⟨[119], 1, 0⟩
+def k2 : VKey := ⟨[119], 2, 1⟩
+def logKey : VKey := ⟨[111], 3, 2⟩
+def cfg : Cfg := { k1 := k1, k2 := k2, mirror := none, logs := [⟨[111], [logKey]⟩] }
+
+def leaf0 : Hash := List.replicate 32 7
+def leaf1 : Hash := List.replicate 32 9
+def leaf0' : Hash := List.replicate 32 8
+
+def text (n : Int) (root : Hash) : Bytes := formatCheckpoint { origin := [111], n := n, hash := root, ext := [] }
+def signedBy (k : VKey) (t : Bytes) : NoteForm := .wellformed { text := t, sigs := [k.sign t] }
+def env (old : Nat) (proof : List Hash) (note : NoteForm) : Env :=
+  { cfg := cfg, inst := 0, req := { body := .ok, old := old, proof := proof, note := note },
+    fetchOut := .ok, replaceOut := .ok, uploadOut := .ok }
+
+/-- the log's first checkpoint (size 1) … -/
+def env1 : Env := env 0 [] (signedBy logKey (text 1 leaf0))
+/-- … its extension to size 2 with the consistency proof `[leaf1]` … -/
+def env2 : Env := env 1 [leaf1] (signedBy logKey (text 2 (nodeE leaf0 leaf1)))
+/-- … and a fork of size 2 whose first leaf differs, with the same proof -/
+def envFork : Env := env 1 [leaf1] (signedBy logKey (text 2 (nodeE leaf0' leaf1)))
+
+def st1 : OState := (addCheckpoint nodeE emptyE env1 (OState.init emptyE)).1
+def st2 : OState := (addCheckpoint nodeE emptyE env2 st1).1
+
+set_option maxRecDepth 100000
+
+example : (addCheckpoint nodeE emptyE env1 (OState.init emptyE)).2 =
+    .ok [k1.sign (text 1 leaf0), k2.sign (text 1 leaf0)] := by decide
+
+example : (addCheckpoint nodeE emptyE env2 st1).2 =
+    .ok [k1.sign (text 2 (nodeE leaf0 leaf1)), k2.sign (text 2 (nodeE leaf0 leaf1))] := by decide
+
+/-- the reachable state after both: a chain of three tree heads -/
+example : Reachable nodeE emptyE cfg [111] st2 ∧
+    st2.hist = [(0, emptyE), (1, leaf0), (2, nodeE leaf0 leaf1)] ∧ st2.released = [(1, leaf0), (2, nodeE leaf0 leaf1)] :=
+  ⟨.add env2 st1 (.add env1 _ .init rfl (by decide)) rfl (by decide), by decide, by decide⟩
+
+/-- the fork is refused with 422 and nothing is stored; so is the honest extension with a wrong proof,
+an unsigned checkpoint gets 403, a stale old size 409 with the recorded size -/
+example : (addCheckpoint nodeE emptyE envFork st1).2 = .err .proof 0 ∧
+    (addCheckpoint nodeE emptyE envFork st1).1.hist = st1.hist := by decide
+
+example : (addCheckpoint nodeE emptyE (env 1 [leaf0] (signedBy logKey (text 2 (nodeE leaf0 leaf1)))) st1).2 =
+    .err .proof 0 := by decide
+
+example : (addCheckpoint nodeE emptyE (env 1 [leaf1] (signedBy k1 (text 2 (nodeE leaf0 leaf1)))) st1).2 =
+    .err .invalidSignature 0 := by decide
+
+example : (addCheckpoint nodeE emptyE (env 0 [] (signedBy logKey (text 2 (nodeE leaf0' leaf1)))) st1).2 =
+    .err .conflict 1 := by decide
+
+/-- a lock write that takes effect but reports an error releases nothing and drops the cached copy;
+the retry is answered 409 with the size that was recorded -/
+example :
+    let e := { env2 with replaceOut := .errA }
+    (addCheckpoint nodeE emptyE e st1).2 = .err .internal 0 ∧
+    (addCheckpoint nodeE emptyE e st1).1.hist = [(0, emptyE), (1, leaf0), (2, nodeE leaf0 leaf1)] ∧
+    (addCheckpoint nodeE emptyE e st1).1.cache 0 = none ∧
+    (addCheckpoint nodeE emptyE env2 (addCheckpoint nodeE emptyE e st1).1).2 = .err .conflict 2 := by decide
+
+end Example
 end C14
